@@ -237,6 +237,11 @@ func (svr *Server) Publish(msg *message.PublishMessage) error {
 		return err
 	}
 
+	// A message published here goes out for the first time (see onPublish).
+	if msg.Dup() {
+		msg.SetDup(false)
+	}
+
 	if msg.Retain() {
 		// Retain makes a copy of msg.
 		if err := svr.topicsMgr.Retain(msg); err != nil {
